@@ -760,7 +760,6 @@ func (a *Agent) PivotAddJob(job Job) {
 	var (
 		Payload  = BuildPayloadMessage([]Job{job}, a.Encryption.AESKey, a.Encryption.AESIv)
 		Packer   = packer.NewPacker(nil, nil)
-		pivots   *Pivots
 		PivotJob Job
 		AgentID  int64
 		err      error
@@ -792,19 +791,27 @@ func (a *Agent) PivotAddJob(job Job) {
 		},
 	}
 
-	pivots = &a.Pivots
+	// walk up from the parent we see now: a disconnect reported by the parent (another
+	// goroutine) may clear the link at any moment
+	var Hop = a.Pivots.Parent
+	if Hop == nil {
+		// the link went away since AddJobToQueue looked: there is no hop to hand the job to
+		// any more (it stays in the agent's own queue, see above)
+		return
+	}
 
 	// pack it up for all the parent pivots.
 	for {
-		if pivots.Parent.Pivots.Parent == nil {
+		var Next = Hop.Pivots.Parent
+		if Next == nil {
 			break
 		}
 
 		// create new layer package.
-		Payload = BuildPayloadMessage([]Job{PivotJob}, pivots.Parent.Encryption.AESKey, pivots.Parent.Encryption.AESIv)
+		Payload = BuildPayloadMessage([]Job{PivotJob}, Hop.Encryption.AESKey, Hop.Encryption.AESIv)
 		Packer = packer.NewPacker(nil, nil)
 
-		AgentID, err = strconv.ParseInt(pivots.Parent.NameID, 16, 64)
+		AgentID, err = strconv.ParseInt(Hop.NameID, 16, 64)
 		if err != nil {
 			logger.Debug("Failed to convert NameID string to AgentID: " + err.Error())
 			return
@@ -822,12 +829,12 @@ func (a *Agent) PivotAddJob(job Job) {
 			},
 		}
 
-		pivots = &pivots.Parent.Pivots
+		Hop = Next
 	}
 
-	pivots.Parent.JobMtx.Lock()
-	pivots.Parent.JobQueue = append(pivots.Parent.JobQueue, PivotJob)
-	pivots.Parent.JobMtx.Unlock()
+	Hop.JobMtx.Lock()
+	Hop.JobQueue = append(Hop.JobQueue, PivotJob)
+	Hop.JobMtx.Unlock()
 }
 
 func (a *Agent) DownloadAdd(FileID int, FilePath string, FileSize int64) error {
